@@ -10,7 +10,21 @@ _IDS = {
 
 def get(check_id):
     mod = importlib.import_module(f"simfix.checks.{_IDS[check_id]}")
-    return mod.CHECK
+    c = mod.CHECK
+    if hasattr(c, "make_sim") and not getattr(c, "_prop_tagged", False):
+        orig = c.make_sim
+
+        def make_sim(cfg, trace=None, _orig=orig, _id=c.ID):
+            sim = _orig(cfg, trace)
+            try:
+                sim.prop_id = _id  # (names the property in clauses every family shares, e.g. the spin clause)
+            except Exception:
+                pass
+            return sim
+
+        c.make_sim = make_sim
+        c._prop_tagged = True
+    return c
 
 
 def available():
